@@ -39,12 +39,12 @@ type c25Obs struct {
 	healthyDetail string
 	blocked       []string // threads blocked at the end (name: op)
 	panicked      string
+	loopStuck     bool // the response manager's loop does not answer a state query any more
 }
 
 func c25RunResponder(cfg vsched.Config, cs c25Case) (*c25Obs, *vsched.Sched) {
 	o := &c25Obs{}
 	sh := harness.Shape{Name: "chain3", Blocks: []harness.BlockSpec{{Edges: []harness.Edge{{To: 1}}}, {Edges: []harness.Edge{{To: 2, Form: harness.Inline}}}, {}}}
-	var sched *vsched.Sched
 	cfg.OnDeadlock = nil
 	s := vsched.Run(cfg, func() {
 		f := harness.NewFixture(false)
@@ -68,6 +68,10 @@ func c25RunResponder(cfg vsched.Config, cs c25Case) (*c25Obs, *vsched.Sched) {
 		if strings.Contains(cs.Stall, "small-allowance") {
 			// room for two blocks and some extension data: the stalled peer fills it, a healthy peer never does
 			opts = append(opts, gsimpl.MaxMemoryPerPeerResponder(uint64(2*oneBlock+40)))
+		}
+		if strings.Contains(cs.Stall, "two-workers-one-per-peer") {
+			// two response workers, at most one per peer: the stalled peer can never hold both
+			opts = append(opts, gsimpl.MaxInProgressIncomingRequests(2), gsimpl.MaxInProgressIncomingRequestsPerPeer(1))
 		}
 		r := f.AddNode(peer.ID("R"), rs, opts...)
 		p1 := f.AddScript(peer.ID("P1"))
@@ -130,6 +134,8 @@ func c25RunResponder(cfg vsched.Config, cs c25Case) (*c25Obs, *vsched.Sched) {
 				vsched.GoN("api-pause", func() { _ = r.GS.Pause(context.Background(), id(0)) })
 			case "api-unpause":
 				vsched.GoN("api-unpause", func() { _ = r.GS.Unpause(context.Background(), id(0), ext) })
+			case "api-unpause-plain":
+				vsched.GoN("api-unpause-plain", func() { _ = r.GS.Unpause(context.Background(), id(0)) })
 			case "api-update":
 				vsched.GoN("api-update", func() { _ = r.GS.SendUpdate(context.Background(), id(0), ext) })
 			case "api-cancel":
@@ -167,8 +173,14 @@ func c25RunResponder(cfg vsched.Config, cs c25Case) (*c25Obs, *vsched.Sched) {
 		}
 		o.healthyDone = len(sts) > 0 && sts[len(sts)-1] == graphsync.RequestCompletedFull && nb == 3
 		o.healthyDetail = fmt.Sprintf("healthy peer received statuses %v and %d blocks", sts, nb)
-		if !o.healthyDone && sched != nil {
-		}
+		// is the response manager's loop itself stuck? a state query goes through it
+		answered := false
+		vsched.GoN("probe", func() {
+			_ = r.GS.(*gsimpl.GraphSync).PeerState(p2.ID)
+			answered = true
+		})
+		vsched.Quiesce()
+		o.loopStuck = !answered
 		for _, t := range vsched.Current().Threads() {
 			if !t.Done && t.Blocked && (strings.Contains(t.Name, "responsemanager") || strings.Contains(t.Name, "requestmanager")) {
 				o.blocked = append(o.blocked, t.Name+":"+t.Op)
@@ -286,10 +298,11 @@ func c25Judge(cs c25Case, o *c25Obs) *core.Violation {
 				cause = "extension-data-queued-on-the-manager-loop"
 			}
 		}
-		if cause == "other" && strings.Contains(cs.Healthy, "ext") {
+		// ... and only when the response manager's own loop is what is stuck (it no longer answers a state query)
+		if cause != "other" && cs.Side == "responder" && !o.loopStuck {
 			cause = "other"
 		}
-		return &core.Violation{Signature: "healthy-peer-not-served/" + cs.Side + "/" + cause, What: fmt.Sprintf("%s: %s", cs, o.healthyDetail), Replay: cs}
+		return &core.Violation{Signature: "healthy-peer-not-served/" + cs.Side + "/" + cause, What: fmt.Sprintf("%s: %s (response manager's loop stuck: %v)", cs, o.healthyDetail, o.loopStuck), Replay: cs}
 	}
 	return nil
 }
@@ -307,6 +320,12 @@ func c25Cases() []c25Case {
 			for _, h := range []string{"request", "request-ext", "request+update", "request+pause"} {
 				out = append(out, c25Case{Side: "responder", Stall: stall, Traffic: tr, Healthy: h})
 			}
+		}
+	}
+	// two workers, one per peer: whatever the stalled peer does, one worker stays free for the others
+	for _, tr := range [][]string{{"request", "request2"}, {"request-paused", "update-unpause", "request2"}, {"request-paused", "request2", "update-unpause"}, {"request-paused", "api-unpause-plain", "request2"}, {"request", "api-pause", "api-unpause", "request2"}, {"request", "request2-paused", "update2-unpause"}} {
+		for _, h := range []string{"request", "request+pause"} {
+			out = append(out, c25Case{Side: "responder", Stall: "sends-block+small-allowance+two-workers-one-per-peer", Traffic: tr, Healthy: h})
 		}
 	}
 	for _, tr := range [][]string{{"request"}, {"request", "request"}, {"request", "ctx-cancel"}, {"request", "api-cancel"}, {"request", "api-pause"}} {
@@ -368,7 +387,7 @@ func runC25(c *core.Ctx) {
 
 func init() {
 	core.Register(&core.Prop{ID: "C25", Level: "model_checking",
-		Rule:        "responder side: peer P1's link never accepts a send (optionally with a one-block per-peer allowance) while P1's exchange involves 14 traffic patterns (1-2 requests, a request whose hook queues extension data, requestor update / cancel / double cancel, hook-paused request unpaused by an update, responder pause / unpause / update / cancel API) and healthy peer P2 then sends {request, request with hook extension, request+update, paused request+unpausing update}; requestor side: the link to responder S1 never accepts a send while requests to S1 are issued / cancelled / paused and a request to healthy S2 follows. Oracle at final quiescence: the healthy exchange completed in full. Schedule level: 5 cases, every schedule within the deviation bound; a class is (side, stall kind, healthy served)",
+		Rule:        "responder side: peer P1's link never accepts a send (optionally with a small per-peer allowance, optionally with two response workers and a per-peer maximum of one) while P1's exchange involves 14 traffic patterns (1-2 requests, a request whose hook queues extension data, requestor update / cancel / double cancel, hook-paused request unpaused by an update, responder pause / unpause / update / cancel API) and healthy peer P2 then sends {request, request with hook extension, request+update, paused request+unpausing update}; requestor side: the link to responder S1 never accepts a send while requests to S1 are issued / cancelled / paused and a request to healthy S2 follows. Oracle at final quiescence: the healthy exchange completed in full. Schedule level: 5 cases, every schedule within the deviation bound; a class is (side, stall kind, healthy served)",
 		Assumptions: []string{"a stalled send never returns (blocks indefinitely = a thread that is never enabled)", "the total memory allowance is left at its default, only the per-peer allowance is reduced"},
 		Run:         runC25, QuickBudget: 300, ThoroughBudget: 1800,
 		Replay: func(raw json.RawMessage) string {
